@@ -91,7 +91,7 @@ def build_chain(date: str, targets: list[str], df=None, wname="bruttolohn_m"):
         rounded = e is not None and e["rounding_key"]
         fd = None
         if e is not None and not e["skip_vectorization"] and not rounded:
-            cand = ruleir.strip_docstrings(ruleir.fundef(extract.source_of(e)))
+            cand = ruleir.fundef_inlined(extract.source_of(e), extract.helpers_of(e))
             if ruleir.in_fragment(cand):
                 fd = cand
                 kinds[n] = "rule"
